@@ -400,9 +400,11 @@ pub fn run_replay_file(check: &mut dyn Check, path: &Path) -> i32 {
     let mut code = 0;
     for _ in 0..n {
         let out = replay_value(check, &part, &v["replay"], &mut env);
+        let mut known_seen = false;
         for viol in &out.viols {
             if viol.prop == id && is_known(&known, viol) {
                 println!("KNOWN-FINDING: property={} {}", id, viol.msg);
+                known_seen = true;
             }
         }
         if let Some(viol) = first_unknown(&out, &id, &known) {
@@ -410,6 +412,9 @@ pub fn run_replay_file(check: &mut dyn Check, path: &Path) -> i32 {
             println!("case: {}", serde_json::to_string_pretty(&out.desc).unwrap_or_default());
             println!("VIOLATION property={} replay={}", id, path.display());
             code = 1;
+            break;
+        }
+        if known_seen {
             break;
         }
     }
